@@ -115,6 +115,13 @@ CHECKS = {
         "Atmosphere data carry ~4 digits: consistency to 0.2 % (viscosity 2 %); a dropped digit in the pressure table was found and fixed (aa07cb3). " + TRUSTED,
         "5 C17, 3.7",
     ),
+    "C20": (
+        "model_checking",
+        "TLC: OASSetup (every malformed variant with <= 2 defects through the staged script; NoSilentAcceptance, LoudRejection, UnknownKeysWarned) and OASTwo (all interleavings of two Problems; Isolation over extracted shared state); every terminal state and interleaving replayed on the real API",
+        "All 69 variants of the documented mesh, surface (per model kind) and multi-section dictionaries are stepped through generate_mesh / group constructors / Problem.setup / run_model in the spec and on the real API: a malformed variant must stop with an exception before any number is produced, unknown keys must be warned about; interleavings of the API calls of an aerodynamic and an aerostructural Problem up to depth 4/5 must leave each Problem bit-identical to the same Problem run alone; admissible configurations must give finite outputs, be repeatable between independent Problems and leave every user array unchanged (SHA-1).",
+        "Which of several fatal defects is reported first, and whether a warning precedes an error, is not part of the contract (spec is nondeterministic there); any exception class counts as loud. " + TRUSTED,
+        "5 C20, 3.2",
+    ),
 }
 PENDING = {}
 
